@@ -561,11 +561,12 @@ Definition step (st : mstate) (e : tev) : mstate :=
                 | _ => st
                 end in
       let st := match t with
-                | MGet =>
+                | MGet | MRefetch =>
+                    let rf := match t with MRefetch => true | _ => false end in
                     let st := if mem (base_of r) (mqsubs st) then st else add_viol st VGetWithoutSub 0 r in
-                    let st := if existsb (fun x => Nat.eqb (fst x) r && match snd x with None => true | Some _ => false end) (resetting st)
+                    let st := if rf && existsb (fun x => Nat.eqb (fst x) r && match snd x with None => true | Some _ => false end) (resetting st)
                               then st else set_pgets st ((n, r) :: pgets st) in
-                    if existsb (fun x => Nat.eqb (fst x) r && match snd x with None => true | Some _ => false end) (resetting st)
+                    if rf && existsb (fun x => Nat.eqb (fst x) r && match snd x with None => true | Some _ => false end) (resetting st)
                     then let st := set_resetting st (map (fun x => if Nat.eqb (fst x) r then (r, Some n) else x) (resetting st)) in
                          (* C19: with one reset since the last quiescent point, its outstanding re-fetches never exceed the reset throttle *)
                          if negb (Nat.eqb (thr st) 0) && Nat.leb (single st) 1 &&
